@@ -58,7 +58,10 @@ enum verif_kind {
 	VK_EARLY_ANTI,     ///< a=msg
 	VK_ROLLBACK_DONE,  ///< a=lp, b=past_i (after coasting forward)
 	VK_EARLY_MATCH,    ///< a=msg, b=matching early anti-message
-	VK_DEQUEUE         ///< a=msg, b=dest lp (message taken from the thread queue, before anything else)
+	VK_DEQUEUE,        ///< a=msg, b=dest lp (message taken from the thread queue, before anything else)
+	VK_TERM_INIT,      ///< a=lp, b=predicate value at init, c=lps_to_end afterwards
+	VK_TERM_PROCESS,   ///< a=lp, b=bits of the new termination_t, c=lps_to_end afterwards
+	VK_TERM_ROLLBACK   ///< a=lp, b=bits of the old termination_t, c=keep
 };
 
 /// The bit pattern of a double, for tracing time stamps
